@@ -4,7 +4,7 @@
    it is now (flip test on the Cartesian parts), [old_rule = true] the original flip rule.
    Only statements, each closed by [exact <lemma>] and followed by Print Assumptions. *)
 From Coq Require Import Reals ZArith List Bool Arith Lra Lia.
-From Romea Require Import Num NumR NormalsModel NormalsProofs SrcEigen SrcNormalsLib SrcTieC09.
+From Romea Require Import Num NumR NormalsModel NormalsProofs SrcEigen SrcNormalsLib SrcTieC09 NormalsRotation.
 From Romea.gen Require Import SrcNormals.
 Import ListNotations.
 Local Open Scope R_scope.
@@ -102,10 +102,10 @@ Print Assumptions C09_planar_exact.
 (* rotation equivariance, at the level of the covariance matrix: if C' = Rm C Rm^T for a rotation Rm and the
    smallest eigenvalue of C is simple, any two results meeting the contract have lam'_0 = lam_0 and the first
    eigenvector of C' is +- Rm (first eigenvector of C).
-   PARTIAL: a statement about matrices only.  The two missing links to the model — (a) the covariance of the
-   rotated neighbours is Rm C Rm^T, (b) the flip selects the same sign — are C09_covariance_rotated and
-   C09_rotation_equivariance below. *)
-Theorem C09_rotation_equivariance_partial : forall dim Rm C C' lam cols lam' cols',
+   (Formerly C09_rotation_least_variance_direction: a statement about matrices only.  It is kept as the linear-algebra core; the
+   two links to the model that were missing — (a) the covariance of the rotated neighbours is Rm C Rm^T, (b) what the flip
+   does to the sign — are C09_covariance_rotated and C09_rotation_equivariance below, so nothing is partial any more.) *)
+Theorem C09_rotation_least_variance_direction : forall dim Rm C C' lam cols lam' cols',
   dim = 2%nat \/ dim = 3%nat ->
   is_rotation dim Rm -> conj_by dim Rm C C' ->
   eig_contract dim C (lam, cols) -> eig_contract dim C' (lam', cols') ->
@@ -113,8 +113,8 @@ Theorem C09_rotation_equivariance_partial : forall dim Rm C C' lam cols lam' col
   vcoord ROps lam' 0 = vcoord ROps lam 0 /\
   (nth 0 cols' [] = rot_apply dim Rm (nth 0 cols []) \/
    nth 0 cols' [] = vneg ROps (rot_apply dim Rm (nth 0 cols []))).
-Proof. exact rotation_equivariance_partial. Qed.
-Print Assumptions C09_rotation_equivariance_partial.
+Proof. exact rotation_equivariance_partial. Qed.   (* the lemma keeps its historical name in NormalsProofs.v *)
+Print Assumptions C09_rotation_least_variance_direction.
 
 (* (a) two-pass mean/covariance is equivariant: [rot_point dim Rm q] applies Rm to the first dim entries of q and
    keeps the rest (w).  Holds for any matrix Rm. *)
@@ -124,10 +124,11 @@ Theorem C09_covariance_rotated : forall dim size Rm nb,
 Proof. exact covariance_rotated. Qed.
 Print Assumptions C09_covariance_rotated.
 
-(* the full property: rotating the neighbours and the point about the sensor (origin) rotates the normal and
-   leaves lambda_0 and the curvature unchanged — whenever the normal is determined at all: lambda_0 simple and
-   n . p <> 0 (for n . p = 0 the code keeps the sign the solver returned, which the contract does not fix).
-   The caller-supplied contents of the two normals may differ. *)
+(* the full property: rotating the neighbours and the point about the sensor (origin) leaves lambda_0 and the curvature
+   unchanged and turns the normal into +- the rotated normal whenever the normal is determined up to sign at all (lambda_0
+   simple); the sign is + whenever n . p <> 0.  For n . p = 0 the code keeps the sign the solver returned, which the
+   contract does not fix: there only the +- statement holds.  The caller-supplied contents of the two normals may differ.
+   (Strengthened: the former statement had n . p <> 0 as a premise of everything.) *)
 Theorem C09_rotation_equivariance : forall eig dim size p nb normal_in normal_in' Rm,
   dim = 2%nat \/ dim = 3%nat -> is_rotation dim Rm ->
   (dim <= size)%nat -> (forall q, In q nb -> length q = size) ->
@@ -138,11 +139,13 @@ Theorem C09_rotation_equivariance : forall eig dim size p nb normal_in normal_in
   let e := estimate_point ROps eig false dim size p nb normal_in in
   let e' := estimate_point ROps eig false dim size p' nb' normal_in' in
   vcoord ROps (e_lambda e) 0 < vcoord ROps (e_lambda e) 1 ->
-  vdot ROps (firstn dim (e_normal e)) (firstn dim p) <> 0 ->
-  firstn dim (e_normal e') = rot_apply dim Rm (firstn dim (e_normal e)) /\
+  (firstn dim (e_normal e') = rot_apply dim Rm (firstn dim (e_normal e)) \/
+   firstn dim (e_normal e') = vneg ROps (rot_apply dim Rm (firstn dim (e_normal e)))) /\
+  (vdot ROps (firstn dim (e_normal e)) (firstn dim p) <> 0 ->
+   firstn dim (e_normal e') = rot_apply dim Rm (firstn dim (e_normal e))) /\
   vcoord ROps (e_lambda e') 0 = vcoord ROps (e_lambda e) 0 /\
   e_curvature e' = e_curvature e.
-Proof. exact rotation_equivariance. Qed.
+Proof. exact rotation_equivariance_any_sign. Qed.
 Print Assumptions C09_rotation_equivariance.
 
 
@@ -474,6 +477,109 @@ Proof.
 Qed.
 Print Assumptions C09_source_normals_unit_and_facing.
 
+(* ROTATION OF THE WHOLE CLOUD, on the terms generated from the source: two runs of compute(), on a cloud and on the same cloud
+   turned about the sensor by Rm ([points' i] = [points i] with Rm applied to the Cartesian part, w kept).  A rotation keeps
+   distances, so an exact k-nearest-neighbour search returns the same indexes for both clouds unless two distances tie: that is
+   the premise on [kd_find] (the search is C08's; the premise is not derived here).  Then, for every point whose lambda_0 is
+   simple: the curvature is unchanged and the new normal is +- the rotated one, with sign + whenever n . p <> 0. *)
+Theorem C09_source_rotation_equivariance :
+  (forall (K : Type) (eig : list (list R) -> list R * list (list R)) (kd_find : K -> R * R -> Z -> list Z) points points' size kd kd'
+      normals normals' curvatures curvatures' reliab reliab' k nbi0 es0 a0 a1 v00 v01 v10 v11 nbi0' es0' a0' a1' v00' v01' v10' v11' Rm,
+  is_rotation 2 Rm -> (0 <= k)%Z -> (0 <= size)%Z ->
+  (forall t p, length (kd_find t p k) = Z.to_nat k) ->
+  (forall i, SrcTieC09.l2 (points' i) = rot_point 2 Rm (SrcTieC09.l2 (points i))) ->
+  (forall j, (0 <= j < size)%Z -> kd_find kd' (points' j) k = kd_find kd (points j) k) ->
+  (forall j, (0 <= j < size)%Z ->
+     let C := covariance ROps 2 2 (map (fun i => SrcTieC09.l2 (points i)) (kd_find kd (points j) k)) in eig_contract 2 C (eig C)) ->
+  (forall j, (0 <= j < size)%Z ->
+     let C := covariance ROps 2 2 (map (fun i => SrcTieC09.l2 (points' i)) (kd_find kd' (points' j) k)) in eig_contract 2 C (eig C)) ->
+  let '(nrm, cv, rl, _, _, _, _, _, _, _, _) :=
+    src_compute_kd_ncr_V2 ROps kd_find eig points size kd normals curvatures reliab k nbi0 es0 a0 a1 v00 v01 v10 v11 in
+  let '(nrm', cv', rl', _, _, _, _, _, _, _, _) :=
+    src_compute_kd_ncr_V2 ROps kd_find eig points' size kd' normals' curvatures' reliab' k nbi0' es0' a0' a1' v00' v01' v10' v11' in
+  forall j, (0 <= j < size)%Z ->
+    let lam := fst (eig (covariance ROps 2 2 (map (fun i => SrcTieC09.l2 (points i)) (kd_find kd (points j) k)))) in
+    vcoord ROps lam 0 < vcoord ROps lam 1 ->
+    let n := firstn 2 (SrcTieC09.l2 (nrm j)) in
+    let n' := firstn 2 (SrcTieC09.l2 (nrm' j)) in
+    (n' = rot_apply 2 Rm n \/ n' = vneg ROps (rot_apply 2 Rm n)) /\
+    (vdot ROps n (firstn 2 (SrcTieC09.l2 (points j))) <> 0 -> n' = rot_apply 2 Rm n) /\
+    cv' j = cv j) /\
+  (forall (K : Type) (eig : list (list R) -> list R * list (list R)) (kd_find : K -> R * R * R -> Z -> list Z) points points' size kd kd'
+      normals normals' curvatures curvatures' reliab reliab' k nbi0 es0 a0 a1 a2 v00 v01 v02 v10 v11 v12 v20 v21 v22 nbi0' es0' a0' a1' a2' v00' v01' v02' v10' v11' v12' v20' v21' v22' Rm,
+  is_rotation 3 Rm -> (0 <= k)%Z -> (0 <= size)%Z ->
+  (forall t p, length (kd_find t p k) = Z.to_nat k) ->
+  (forall i, SrcTieC09.l3 (points' i) = rot_point 3 Rm (SrcTieC09.l3 (points i))) ->
+  (forall j, (0 <= j < size)%Z -> kd_find kd' (points' j) k = kd_find kd (points j) k) ->
+  (forall j, (0 <= j < size)%Z ->
+     let C := covariance ROps 3 3 (map (fun i => SrcTieC09.l3 (points i)) (kd_find kd (points j) k)) in eig_contract 3 C (eig C)) ->
+  (forall j, (0 <= j < size)%Z ->
+     let C := covariance ROps 3 3 (map (fun i => SrcTieC09.l3 (points' i)) (kd_find kd' (points' j) k)) in eig_contract 3 C (eig C)) ->
+  let '(nrm, cv, rl, _, _, _, _, _, _, _, _, _, _, _, _, _, _) :=
+    src_compute_kd_ncr_V3 ROps kd_find eig points size kd normals curvatures reliab k nbi0 es0 a0 a1 a2 v00 v01 v02 v10 v11 v12 v20 v21 v22 in
+  let '(nrm', cv', rl', _, _, _, _, _, _, _, _, _, _, _, _, _, _) :=
+    src_compute_kd_ncr_V3 ROps kd_find eig points' size kd' normals' curvatures' reliab' k nbi0' es0' a0' a1' a2' v00' v01' v02' v10' v11' v12' v20' v21' v22' in
+  forall j, (0 <= j < size)%Z ->
+    let lam := fst (eig (covariance ROps 3 3 (map (fun i => SrcTieC09.l3 (points i)) (kd_find kd (points j) k)))) in
+    vcoord ROps lam 0 < vcoord ROps lam 1 ->
+    let n := firstn 3 (SrcTieC09.l3 (nrm j)) in
+    let n' := firstn 3 (SrcTieC09.l3 (nrm' j)) in
+    (n' = rot_apply 3 Rm n \/ n' = vneg ROps (rot_apply 3 Rm n)) /\
+    (vdot ROps n (firstn 3 (SrcTieC09.l3 (points j))) <> 0 -> n' = rot_apply 3 Rm n) /\
+    cv' j = cv j) /\
+  (forall (K : Type) (eig : list (list R) -> list R * list (list R)) (kd_find : K -> R * R * R -> Z -> list Z) points points' size kd kd'
+      normals normals' curvatures curvatures' reliab reliab' k nbi0 es0 a0 a1 v00 v01 v10 v11 nbi0' es0' a0' a1' v00' v01' v10' v11' Rm,
+  is_rotation 2 Rm -> (0 <= k)%Z -> (0 <= size)%Z ->
+  (forall t p, length (kd_find t p k) = Z.to_nat k) ->
+  (forall i, SrcTieC09.l3 (points' i) = rot_point 2 Rm (SrcTieC09.l3 (points i))) ->
+  (forall j, (0 <= j < size)%Z -> kd_find kd' (points' j) k = kd_find kd (points j) k) ->
+  (forall j, (0 <= j < size)%Z ->
+     let C := covariance ROps 2 3 (map (fun i => SrcTieC09.l3 (points i)) (kd_find kd (points j) k)) in eig_contract 2 C (eig C)) ->
+  (forall j, (0 <= j < size)%Z ->
+     let C := covariance ROps 2 3 (map (fun i => SrcTieC09.l3 (points' i)) (kd_find kd' (points' j) k)) in eig_contract 2 C (eig C)) ->
+  let '(nrm, cv, rl, _, _, _, _, _, _, _, _) :=
+    src_compute_kd_ncr_H2 ROps kd_find eig points size kd normals curvatures reliab k nbi0 es0 a0 a1 v00 v01 v10 v11 in
+  let '(nrm', cv', rl', _, _, _, _, _, _, _, _) :=
+    src_compute_kd_ncr_H2 ROps kd_find eig points' size kd' normals' curvatures' reliab' k nbi0' es0' a0' a1' v00' v01' v10' v11' in
+  forall j, (0 <= j < size)%Z ->
+    let lam := fst (eig (covariance ROps 2 3 (map (fun i => SrcTieC09.l3 (points i)) (kd_find kd (points j) k)))) in
+    vcoord ROps lam 0 < vcoord ROps lam 1 ->
+    let n := firstn 2 (SrcTieC09.l3 (nrm j)) in
+    let n' := firstn 2 (SrcTieC09.l3 (nrm' j)) in
+    (n' = rot_apply 2 Rm n \/ n' = vneg ROps (rot_apply 2 Rm n)) /\
+    (vdot ROps n (firstn 2 (SrcTieC09.l3 (points j))) <> 0 -> n' = rot_apply 2 Rm n) /\
+    cv' j = cv j) /\
+  (forall (K : Type) (eig : list (list R) -> list R * list (list R)) (kd_find : K -> R * R * R * R -> Z -> list Z) points points' size kd kd'
+      normals normals' curvatures curvatures' reliab reliab' k nbi0 es0 a0 a1 a2 v00 v01 v02 v10 v11 v12 v20 v21 v22 nbi0' es0' a0' a1' a2' v00' v01' v02' v10' v11' v12' v20' v21' v22' Rm,
+  is_rotation 3 Rm -> (0 <= k)%Z -> (0 <= size)%Z ->
+  (forall t p, length (kd_find t p k) = Z.to_nat k) ->
+  (forall i, SrcTieC09.l4 (points' i) = rot_point 3 Rm (SrcTieC09.l4 (points i))) ->
+  (forall j, (0 <= j < size)%Z -> kd_find kd' (points' j) k = kd_find kd (points j) k) ->
+  (forall j, (0 <= j < size)%Z ->
+     let C := covariance ROps 3 4 (map (fun i => SrcTieC09.l4 (points i)) (kd_find kd (points j) k)) in eig_contract 3 C (eig C)) ->
+  (forall j, (0 <= j < size)%Z ->
+     let C := covariance ROps 3 4 (map (fun i => SrcTieC09.l4 (points' i)) (kd_find kd' (points' j) k)) in eig_contract 3 C (eig C)) ->
+  let '(nrm, cv, rl, _, _, _, _, _, _, _, _, _, _, _, _, _, _) :=
+    src_compute_kd_ncr_H3 ROps kd_find eig points size kd normals curvatures reliab k nbi0 es0 a0 a1 a2 v00 v01 v02 v10 v11 v12 v20 v21 v22 in
+  let '(nrm', cv', rl', _, _, _, _, _, _, _, _, _, _, _, _, _, _) :=
+    src_compute_kd_ncr_H3 ROps kd_find eig points' size kd' normals' curvatures' reliab' k nbi0' es0' a0' a1' a2' v00' v01' v02' v10' v11' v12' v20' v21' v22' in
+  forall j, (0 <= j < size)%Z ->
+    let lam := fst (eig (covariance ROps 3 4 (map (fun i => SrcTieC09.l4 (points i)) (kd_find kd (points j) k)))) in
+    vcoord ROps lam 0 < vcoord ROps lam 1 ->
+    let n := firstn 3 (SrcTieC09.l4 (nrm j)) in
+    let n' := firstn 3 (SrcTieC09.l4 (nrm' j)) in
+    (n' = rot_apply 3 Rm n \/ n' = vneg ROps (rot_apply 3 Rm n)) /\
+    (vdot ROps n (firstn 3 (SrcTieC09.l4 (points j))) <> 0 -> n' = rot_apply 3 Rm n) /\
+    cv' j = cv j).
+Proof.
+  repeat split.
+  - exact (@src_rotation_equivariance_V2).
+  - exact (@src_rotation_equivariance_V3).
+  - exact (@src_rotation_equivariance_H2).
+  - exact (@src_rotation_equivariance_H3).
+Qed.
+Print Assumptions C09_source_rotation_equivariance.
+
 (* non-vacuity of the tie hypotheses: the real dictionary reads the literals as required *)
 Example C09_NormLits_satisfiable : NormLits ROps.
 Proof. exact NormLits_R. Qed.
@@ -560,19 +666,23 @@ Proof.
             forall i j, (i < 3)%nat -> (j < 3)%nat -> P i j) as three.
   { intros P ? ? ? ? ? ? ? ? ? i j Hi Hj.
     destruct i as [|[|[|i]]]; try lia; destruct j as [|[|[|j]]]; try lia; assumption. }
-  apply C09_rotation_equivariance.
-  - right; reflexivity.
-  - split; apply three; cbn; lra.
-  - lia.
-  - intros q [<-|[<-|[<-|[<-|[]]]]]; reflexivity.
-  - exact C09_contract_satisfiable.
-  - unfold eig_contract, wit_eig. cbn [fst snd]. repeat split; try reflexivity.
+  set (Rm := [[0; -1; 0]; [1; 0; 0]; [0; 0; 1]]).
+  assert (D : 3%nat = 2%nat \/ 3%nat = 3%nat) by (right; reflexivity).
+  assert (HRm : is_rotation 3 Rm) by (split; apply three; cbn; lra).
+  assert (Hl : forall q, In q wit_nb -> length q = 4%nat) by (intros q [<-|[<-|[<-|[<-|[]]]]]; reflexivity).
+  assert (Hc' : eig_contract 3 (covariance ROps 3 4 (map (rot_point 3 Rm) wit_nb))
+                  (wit_eig (covariance ROps 3 4 (map (rot_point 3 Rm) wit_nb)))).
+  { unfold eig_contract, wit_eig. cbn [fst snd]. repeat split; try reflexivity.
     + intros c Hc. destruct c as [|[|[|c]]]; try lia; reflexivity.
     + apply three; cbn; lra.
     + apply three; cbn; lra.
     + intros c Hc. destruct c as [|[|c]]; try lia; cbn; lra.
-    + apply three; cbn; lra.
-  - cbn; lra.
-  - unfold estimate_point, wit_eig. cbn [e_normal nth]. unfold write_normal, flip_cart.
-    cbn [firstn skipn app wit_p]. destruct (ngtb ROps _ _); cbn; lra.
+    + apply three; cbn; lra. }
+  assert (Gap : vcoord ROps (e_lambda (estimate_point ROps wit_eig false 3 4 wit_p wit_nb [0; 0; 0; 1])) 0
+              < vcoord ROps (e_lambda (estimate_point ROps wit_eig false 3 4 wit_p wit_nb [0; 0; 0; 1])) 1) by (cbn; lra).
+  destruct (C09_rotation_equivariance wit_eig 3 4 wit_p wit_nb [0; 0; 0; 1] [0; 0; 0; 1] Rm D HRm ltac:(lia) Hl
+              C09_contract_satisfiable Hc' Gap) as (_ & A2 & A3 & A4).
+  split; [apply A2|split; [exact A3|exact A4]].
+  unfold estimate_point, wit_eig. cbn [e_normal nth]. unfold write_normal, flip_cart.
+  cbn [firstn skipn app wit_p]. destruct (ngtb ROps _ _); cbn; lra.
 Qed.
